@@ -202,3 +202,317 @@ def check_mirror(sc, obs, replicas, members):
                 if b[f] != p[f]:
                     return (i, "key %s: backup copy on member %d differs from the primary in %s (%s vs %s)" % (op["k"], b["m"], f, str(b[f])[:24], str(p[f])[:24]))
     return None
+
+
+# ------------------------------------------------------------------------------------------
+# Coq side (Model/DMapRun.v)
+# ------------------------------------------------------------------------------------------
+
+from vlib import cN, cZ, cnat, cbool, clist, cbytes, copt
+
+COQ_HEADER = """From Coq Require Import List NArith ZArith Bool.
+Require Import Olric.Model.Codec Olric.Model.DMap Olric.Model.DMapRun.
+Import ListNotations.
+"""
+
+RCODES = {"ok": "ROk", "notfound": "RNotFound", "keyfound": "RKeyFound", "nosuchlock": "RNoSuchLock", "locknotacquired": "RKeyFound"}
+
+
+def hb(x):
+    return cbytes(bytes.fromhex(x))
+
+
+def with_keyinfo(ops):
+    """prepend a keyinfo op for every (dmap, key) the scenario touches"""
+    seen = []
+    for o in ops:
+        ks = []
+        if o.get("k") is not None and o.get("d"):
+            ks.append(o["k"])
+        for k in o.get("ks", []) or []:
+            ks.append(k)
+        for k in ks:
+            if (o["d"], k) not in seen:
+                seen.append((o["d"], k))
+    return [{"op": "keyinfo", "d": d, "k": k} for d, k in seen] + ops
+
+
+def exp_of(op, t0):
+    if op.get("ex"):
+        return "(ERel %s)" % cZ(op["ex"])
+    if op.get("px"):
+        return "(ERel %s)" % cZ(op["px"])
+    for f in ("exat", "pxat"):
+        if op.get(f):
+            return "(ERel %s)" % cZ(op[f]) if op.get("rel") else "(EAbs %s)" % cZ(op[f])
+    return "ENone"
+
+
+def case_to_coq(cfg, ops, obs, default_ttl=None, max_idle=None):
+    """returns the Coq term (ccfg, list cstep) or None when the scenario has an observation without model
+    counterpart"""
+    routes = []
+    steps = []
+    tokmap = {}            # impl token value (hex) -> handle name
+    lockkey = {}           # handle -> (d,k)
+    allkeys = []
+    for op, ob in zip(ops, obs):
+        o = op["op"]
+        if o == "keyinfo":
+            routes.append("(%s, %s, %s, %s)" % (hb(op["d"].encode().hex()), hb(op["k"]), cnat(ob["owner"]), clist(cnat(b) for b in (ob.get("backups") or []))))
+            allkeys.append((op["d"], op["k"]))
+            continue
+        if o in ("sleep", "stats", "scan", "janitor", "compact") or ob.get("r") == "harness:no such lock handle":
+            continue
+        t0, t1 = ob["t0"], ob["t1"]
+        tol = (t1 - t0) + 3
+        d = hb(op["d"].encode().hex()) if op.get("d") else None
+        r = ob.get("r")
+        coqop = None
+        coqobs = None
+        if o == "put":
+            coqop = "COp (DPut %s %s %s {| nx := %s; xx := %s; pexp := %s |})" % (d, hb(op["k"]), hb(op["v"]), cbool(op.get("nx", False)), cbool(op.get("xx", False)), exp_of(op, t0))
+        elif o == "get":
+            coqop = "COp (DGet %s %s)" % (d, hb(op["k"]))
+            if r == "ok":
+                coqobs = "BRes (RVal %s %s)" % (hb(ob["val"]), cZ(ob.get("ttl", 0)))
+        elif o in ("del", "mdel"):
+            ks = [op["k"]] if o == "del" else op["ks"]
+            coqop = "COp (DDel %s %s)" % (d, clist(hb(k) for k in ks))
+            if r == "ok":
+                coqobs = "BRes (RCount %s)" % cnat(ob["n"])
+        elif o == "expire":
+            coqop = "COp (DExpire %s %s %s)" % (d, hb(op["k"]), cZ(op["ms"]))
+        elif o == "getput":
+            coqop = "COp (DGetPut %s %s %s)" % (d, hb(op["k"]), hb(op["v"]))
+            if r == "ok":
+                coqobs = "BRes (ROld %s)" % copt(hb(ob["old"]) if ob.get("old") is not None else None)
+        elif o in ("incr", "decr"):
+            delta = op["delta"] if o == "incr" else -op["delta"]
+            coqop = "COp (DIncr %s %s %s)" % (d, hb(op["k"]), cZ(delta))
+            if r == "ok":
+                coqobs = "BRes (RInt %s)" % cZ(ob["n"])
+        elif o == "lock":
+            coqop = "COp (DLock %s %s %s %s)" % (d, hb(op["k"]), hb(op["tok"].encode().hex()), cZ(op.get("ms", 0)))
+            lockkey[op["tok"]] = (op["d"], op["k"])
+        elif o in ("unlock", "lease"):
+            if op.get("forge"):
+                dk = (op["d"], op["k"])
+                tok = hb(op["forge"])
+            else:
+                dk = lockkey.get(op["tok"])
+                tok = hb(op["tok"].encode().hex())
+            if dk is None:
+                return None
+            if o == "unlock":
+                coqop = "COp (DUnlock %s %s %s)" % (hb(dk[0].encode().hex()), hb(dk[1]), tok)
+            else:
+                coqop = "COp (DLease %s %s %s %s)" % (hb(dk[0].encode().hex()), hb(dk[1]), tok, cZ(op["ms"]))
+        elif o == "destroy":
+            coqop = "COp (DDestroy %s)" % d
+        elif o == "evict":
+            coqop = "COp (DEvict %s %s)" % (cnat(op["m"]), clist("(%s, %s)" % (hb(dd.encode().hex()), hb(kk)) for dd, kk in allkeys))
+        elif o == "dump":
+            coqop = "CDump %s %s" % (d, hb(op["k"]))
+            items = []
+            for c in sorted(ob.get("copies", []), key=lambda c: (c["m"], c["kind"] == "b")):
+                val = c["val"]
+                # a lock token is random: name it by the handle that holds the key
+                for h, dk in lockkey.items():
+                    if dk == (op["d"], op["k"]) and len(val) == 32:
+                        if val not in tokmap:
+                            tokmap[val] = h
+                if val in tokmap:
+                    val = tokmap[val].encode().hex()
+                items.append("(%s, %s, %s, %s)" % (cnat(c["m"]), cbool(c["kind"] == "b"), hb(val), cZ(c["ttl"])))
+            coqobs = "BCopies %s" % clist(items)
+        else:
+            return None
+        if coqobs is None:
+            if r in RCODES:
+                coqobs = "BRes %s" % RCODES[r]
+            else:
+                return None
+        steps.append("{| c_now := %s; c_tol := %s; c_op := %s; c_obs := %s |}" % (cZ(t0), cZ(tol), coqop, coqobs))
+    ttl = clist("(%s, %s)" % (hb(dn.encode().hex()), cZ(ms)) for dn, ms in (default_ttl or {}).items())
+    idle = clist("(%s, %s)" % (hb(dn.encode().hex()), cZ(ms)) for dn, ms in (max_idle or {}).items())
+    ccfg = "{| c_members := %s; c_replicas := %s; c_routes := %s; c_ttl := %s; c_idle := %s |}" % (
+        cnat(cfg["members"]), cnat(cfg.get("replicas", 1)), clist(routes), ttl, idle)
+    return "(%s, %s)" % (ccfg, clist(steps))
+
+
+def coq_compare(prefix, cases, shard=20, jobs=16):
+    """cases: list of (id, coq_term). Returns list of (id, step_index_among_modelled_steps)."""
+    shards = [cases[i:i + shard] for i in range(0, len(cases), shard)]
+    texts = [COQ_HEADER + "Definition cases : list (ccfg * list cstep) := [\n" + ";\n".join(t for _, t in sh) +
+             "\n].\nDefinition M := Eval vm_compute in mismatches cases 0.\nPrint M.\n" for sh in shards]
+    outs = vlib.coq_eval_shards(prefix, texts, jobs=jobs)
+    import re
+    mism = []
+    secs = 0.0
+    for sh, (rc, out, err, dt) in zip(shards, outs):
+        secs += dt
+        if rc != 0 or "M =" not in out:
+            raise vlib.CheckError("coqc failed on generated DMap cases: " + (err or out)[-2000:])
+        flat = " ".join(out.split("M =", 1)[1].rsplit(":", 1)[0].split())
+        for m in re.finditer(r"\((\d+)(?:%nat)?, (\d+)(?:%nat)?\)", flat):
+            mism.append((sh[int(m.group(1))][0], int(m.group(2))))
+    return mism, secs
+
+
+def model_trace(term):
+    txt = COQ_HEADER + "Definition T := Eval vm_compute in let c := %s in run_obs (fst c) [] (snd c) 0.\nPrint T.\n" % term
+    rc, out, err, dt = vlib.coq_eval("dtrace_%d" % __import__("os").getpid(), txt)
+    if rc != 0:
+        return "coqc failed: " + err[-500:]
+    return " ".join(out.split("T =", 1)[-1].split())[:6000]
+
+
+# ------------------------------------------------------------------------------------------
+# generators
+# ------------------------------------------------------------------------------------------
+
+ALLPATHS = ["emb@owner", "emb@other", "emb@backup", "cc", "raw@owner", "raw@other", "pipe"]
+
+
+def hx(s):
+    return s.encode().hex()
+
+
+def gen_seq(rng, dname, nops, nkeys=3, paths=None, dump=True, short_ttl=True, locks=True, evict_members=0):
+    """random sequence of mutating operations and reads on a few keys of one DMap, every client path"""
+    paths = paths or ALLPATHS
+    keys = [hx("%s-k%d" % (dname, i)) for i in range(nkeys)]
+    ops = []
+    handles = 0
+    held = []
+    for _ in range(nops):
+        k = rng.choice(keys)
+        c = rng.choice(paths)
+        w = rng.random()
+        if w < 0.30:
+            op = {"op": "put", "c": c, "d": dname, "k": k, "v": hx("v%d" % rng.randrange(1000))}
+            x = rng.random()
+            if x < 0.15:
+                op["nx"] = True
+            elif x < 0.30:
+                op["xx"] = True
+            y = rng.random()
+            ttl = 60000 if (not short_ttl or rng.random() < 0.6) else 200
+            if y < 0.12:
+                op["ex"] = 60000 if c.startswith("raw") or ttl == 60000 else 200
+                if c.startswith("raw"):
+                    op["ex"] = 60000
+            elif y < 0.30:
+                op["px"] = ttl
+            elif y < 0.38:
+                op["exat"], op["rel"] = 60000, True
+            elif y < 0.46:
+                op["pxat"], op["rel"] = ttl, True
+            ops.append(op)
+        elif w < 0.40:
+            ops.append({"op": "get", "c": c, "d": dname, "k": k})
+        elif w < 0.50:
+            ops.append({"op": "del", "c": c, "d": dname, "k": k})
+        elif w < 0.58:
+            ops.append({"op": "expire", "c": c, "d": dname, "k": k, "ms": rng.choice([60000, 200] if short_ttl else [60000])})
+        elif w < 0.66:
+            ops.append({"op": "getput", "c": c, "d": dname, "k": k, "v": hx("g%d" % rng.randrange(1000))})
+        elif w < 0.78:
+            cc = c if c != "pipe" or True else "cc"
+            ops.append({"op": rng.choice(["incr", "decr"]), "c": cc, "d": dname, "k": k, "delta": rng.randrange(1, 50)})
+        elif w < 0.84 and short_ttl:
+            ops.append({"op": "sleep", "ms": 200 + 2 * MARGIN + 40})
+        elif w < 0.90 and evict_members:
+            ops.append({"op": "evict", "m": rng.randrange(evict_members)})
+        elif locks:
+            lk = hx("%s-lock%d" % (dname, rng.randrange(2)))
+            lc = rng.choice([p for p in paths if p != "pipe"])
+            x = rng.random()
+            if x < 0.5 or not held:
+                handles += 1
+                h = "%s-h%d" % (dname, handles)
+                ops.append({"op": "lock", "c": lc, "d": dname, "k": lk, "ms": rng.choice([0, 60000]), "dl": 20, "tok": h})
+                held.append((h, lk))
+                k = lk
+            elif x < 0.75:
+                h, k = rng.choice(held)
+                ops.append({"op": "unlock", "tok": h})
+            else:
+                h, k = rng.choice(held)
+                ops.append({"op": "lease", "tok": h, "ms": 60000})
+        else:
+            continue
+        if dump and ops[-1]["op"] not in ("sleep", "evict"):
+            ops.append({"op": "dump", "d": dname, "k": k})
+    if dump:
+        for k in keys:
+            ops.append({"op": "get", "c": "emb@owner", "d": dname, "k": k})
+            ops.append({"op": "dump", "d": dname, "k": k})
+    return ops
+
+
+def judge_seq(sc, obs, cfg):
+    """reference semantics (locks included) + mirror"""
+    v = check_semantics_locks(sc, obs, sc.get("default_ttl"))
+    if v:
+        return v
+    return check_mirror(sc, obs, cfg.get("replicas", 1), cfg["members"])
+
+
+def check_semantics_locks(sc, obs, default_ttl=None):
+    """check_semantics extended with Lock / Unlock / Lease (tokens are named by their handle)"""
+    ref = Ref(default_ttl)
+    holder = {}                 # handle -> (d, k)
+    try:
+        for i, (op, ob) in enumerate(zip(sc["ops"], obs)):
+            if ob.get("r") == "harness:no such lock handle":
+                continue            # Unlock/Lease of a handle whose Lock was refused: nothing was sent
+            if str(ob.get("r", "")).startswith("harness:"):
+                raise vlib.CheckError("harness error: " + ob["r"])
+            o = op["op"]
+            if o in ("sleep", "dump", "stats", "keyinfo", "janitor", "compact", "scan"):
+                continue
+            t0, t1 = ob["t0"], ob["t1"]
+            if o == "evict":
+                continue
+            if o == "lock":
+                d, k = op["d"], op["k"]
+                vis = ref.visible(d, k, t0, t1)
+                if vis:
+                    exp = "locknotacquired"
+                    if ob.get("r") == exp and (t1 - t0) + 2 < op["dl"]:
+                        return (i, "Lock failed after %d ms, before its deadline of %d ms" % (t1 - t0, op["dl"]))
+                else:
+                    exp = "ok"
+                    ref.m[(d, k)] = {"val": ("tok:" + op["tok"]).encode(), "dl": (t0 + op["ms"], t1 + op["ms"]) if op.get("ms") else None}
+                    holder[op["tok"]] = (d, k)
+                if ob.get("r") != exp:
+                    return (i, "lock through %s returned %s, expected %s" % (op.get("c"), ob.get("r"), exp))
+                continue
+            if o in ("unlock", "lease"):
+                if op.get("forge"):
+                    d, k = op["d"], op["k"]
+                    mine = False
+                else:
+                    d, k = holder.get(op["tok"], (None, None))
+                    mine = d is not None and ref.visible(d, k, t0, t1) and ref.m[(d, k)]["val"] == ("tok:" + op["tok"]).encode()
+                exp = "ok" if mine else "nosuchlock"
+                if ob.get("r") != exp:
+                    return (i, "%s with %s token returned %s, expected %s" % (o, "the holder's" if mine else "a stale/forged", ob.get("r"), exp))
+                if mine:
+                    if o == "unlock":
+                        del ref.m[(d, k)]
+                    else:
+                        ref.m[(d, k)]["dl"] = (t0 + op["ms"], t1 + op["ms"])
+                continue
+            exp = ref.step(op, ob)
+            # a lock key read through get: value is a random token
+            if o == "get" and exp and exp.get("r") == "ok" and exp.get("val", "").startswith("tok:".encode().hex()):
+                exp = {"r": "ok"}
+            msg = compare_obs(op, ob, exp)
+            if msg:
+                return (i, msg)
+    except Discard:
+        return "discard"
+    return None
